@@ -19,34 +19,13 @@ def whLinkDir : Str := Facts.whiteoutLinkDir?.getD []
 def whOpaqueDir : Str := Facts.whiteoutOpaqueDir?.getD []
 def impliedMode : Nat := Facts.impliedDirectoryMode?.getD 0
 
-def isErr : Res → Bool
-  | .err _ => true
-  | .blocked => true
+def isEPERM : Res → Bool
+  | .err .EPERM => true
   | _ => false
 
 def isENOENT : Res → Bool
   | .err .ENOENT => true
   | _ => false
-
-/-- `os.MkdirAll(path, perm)`; `fuel` ≥ number of path bytes -/
-def mkdirAllP : Nat → Str → Nat → Prog Res
-  | 0, _, _ => pure (.err .ELOOP)
-  | fuel+1, path, perm => do
-    let r ← sys (.stat path)
-    match r with
-    | .stat s => if s.kind == .dir then pure .ok else pure (.err .ENOTDIR)
-    | _ =>
-      let parent := (splitLast (stripTrailingSlashes path)).1
-      let pr ← (if parent.length > 0 ∧ parent ≠ path then mkdirAllP fuel parent perm else pure .ok)
-      if isErr pr then pure pr
-      else
-        let m ← sys (.mkdir path perm)
-        if isErr m then
-          let l ← sys (.lstat path)
-          match l with
-          | .stat s => if s.kind == .dir then pure .ok else pure m
-          | _ => pure m
-        else pure .ok
 
 /-- `setPermissions` of moby/sys/user -/
 def setPermissionsP (p : Str) (mode : Nat) (owner : Option (Nat × Nat)) : Prog Res := do
@@ -89,7 +68,7 @@ def mkdirAllAndChownP (path0 : Str) (mode : Nat) (owner : Option (Nat × Nat)) :
   | _ =>
     let first := if isENOENT r then [path] else []
     let missing ← missingOf (ancestorsOf path.length path)
-    let m ← mkdirAllP (path.length + 1) path mode
+    let m ← sys (.mkdirAll path mode)
     if isErr m then pure m
     else setAll mode owner (first ++ missing)
 
@@ -106,16 +85,21 @@ def kindOfTyp : Typ → Kind
   | .blk => .blk
   | _ => .fifo
 
+/-- errors of lsetxattr that `createTarFile` puts up with -/
+def xattrTolerated (best : Bool) : Res → Bool
+  | .err .EPERM => true
+  | .err .ENOTSUP => best
+  | _ => false
+
 def setXattrsP (path : Str) (best : Bool) : List (Str × List UInt8) → Prog Res
   | [] => pure .ok
   | (k, v) :: rest => do
     let r ← sys (.setxattr path k v false)
-    match r with
-    | .err .EPERM => setXattrsP path best rest
-    | .err .ENOTSUP => if best then setXattrsP path best rest else pure r
-    | .err _ => pure r
-    | .blocked => pure r
-    | _ => setXattrsP path best rest
+    if isErr r && !xattrTolerated best r then pure r else setXattrsP path best rest
+
+def isDirRes : Res → Bool
+  | .stat s => s.kind == .dir
+  | _ => false
 
 def notSymlink : Res → Bool
   | .stat s => s.kind != .sym
@@ -149,11 +133,10 @@ def createTarFileP (path xd : Str) (e : Entry) (o : Opts) : Prog Out := do
   match e.typ with
   | .dir =>
     let l ← sys (.lstat path)
-    let isD := match l with | .stat s => s.kind == .dir | _ => false
-    if !isD then
+    if isDirRes l then applyMetaP path e o
+    else
       let r ← sys (.mkdir path e.mode)
-      if isErr r then return .err
-    applyMetaP path e o
+      if isErr r then return .err else applyMetaP path e o
   | .reg =>
     let r ← sys (.createWrite path e.mode e.body)
     if isErr r then return .err
@@ -166,11 +149,10 @@ def createTarFileP (path xd : Str) (e : Entry) (o : Opts) : Prog Out := do
     applyMetaP path e o
   | .fifo =>
     let r ← sys (.mknod path .fifo e.mode (0, 0))
-    match r with
-    | .err .EPERM => if o.inUserNS then return .ok else return .err
-    | .err _ => return .err
-    | .blocked => return .err
-    | _ => applyMetaP path e o
+    if isErr r then
+      -- creating a fifo is refused with EPERM in most user namespaces: tolerated there
+      if isEPERM r && o.inUserNS then return .ok else return .err
+    else applyMetaP path e o
   | .link =>
     let t := join xd e.linkname
     if !isWithin xd t then return .breakout
@@ -204,6 +186,19 @@ def guardName (dest n : Str) : Except Out Str :=
   | none => .error .err
   | some r => if r = dotdot ∨ hasPrefix r dotdotSlash = true then .error .breakout else .ok p
 
+/-- what `Unpack` does about an existing object at the entry's path:
+    0 merge / nothing there, 1 conflict error, 2 skip the entry, 3 remove it first -/
+def actOf (o : Opts) (l : Res) (e : Entry) (n : Str) : Nat :=
+  match l with
+  | .stat s =>
+    let isD := s.kind == .dir
+    if o.noOverwriteDirNonDir && isD && e.typ != .dir then 1
+    else if o.noOverwriteDirNonDir && !isD && e.typ == .dir then 1
+    else if isD && n = dot then 2
+    else if !isD || e.typ != .dir then 3
+    else 0
+  | _ => 0
+
 /-- the loop of `Unpack`; `dirs` accumulates directory headers in reverse -/
 def unpackLoop (dest : Str) (o : Opts) : List Entry → List Entry → Prog Out
   | [], dirs => dirTimesP dest dirs.reverse
@@ -219,15 +214,7 @@ def unpackLoop (dest : Str) (o : Opts) : List Entry → List Entry → Prog Out
         if isErr i then return .err
         let l ← sys (.lstat p)
         -- decide: conflict / skip / replace
-        let act : Nat := match l with            -- 0 continue normally, 1 error, 2 skip entry
-          | .stat s =>
-            let isD := s.kind == .dir
-            if o.noOverwriteDirNonDir && isD && e.typ != .dir then 1
-            else if o.noOverwriteDirNonDir && !isD && e.typ == .dir then 1
-            else if isD && n = dot then 2
-            else if !isD || e.typ != .dir then 3
-            else 0
-          | _ => 0
+        let act := actOf o l e n
         if act = 1 then return .err
         if act = 2 then unpackLoop dest o es dirs
         else
@@ -266,6 +253,18 @@ def layerFinish (dest : Str) (st : LState) (out : Out) : Prog (Out × Nat) := do
   -- deferred os.RemoveAll(aufsTempdir) runs on every exit once the directory was made
   let _ ← (if st.tmp ≠ [] then sys (.removeAll st.tmp) else pure .ok)
   pure (out, if out == .ok then st.size else 0)
+
+/-- a non-directory where a directory is needed -/
+def notDirRes : Res → Bool
+  | .stat si => si.kind != .dir
+  | _ => false
+
+/-- removal for a whiteout: first make sure the directory `os.RemoveAll` may have to open is not a
+    fifo or a device (fix D16); `none` = refused -/
+def whiteoutRemoveP (orig : Str) : Prog (Option Res) :=
+  .call (.stat (dir orig)) (fun s =>
+    if notDirRes s then .ret none
+    else .call (.removeAll orig) (fun r => .ret (some r)))
 
 /-- regular files under `.wh..wh.plnk` are staged in a temporary directory inside the destination -/
 def stageP (dest : Str) (o : Opts) (e : Entry) (st : LState) (n : Str) : Prog (Except Out LState) :=
@@ -334,12 +333,10 @@ def layerLoop (dest : Str) (o : Opts) : List Entry → LState → Prog (Out × N
           let orig := join dr (b.drop whPrefix.length)
           if !isWithin dest orig then layerFinish dest st .breakout
           else
-            let s ← sys (.stat dr)
-            let notDir : Bool := match s with | .stat si => si.kind != .dir | _ => false
-            if notDir then layerFinish dest st .err
-            else
-              let r ← sys (.removeAll orig)
-              if isErr r then layerFinish dest st .err else layerLoop dest o es st
+            let r ← whiteoutRemoveP orig
+            match r with
+            | none => layerFinish dest st .err
+            | some r => if isErr r then layerFinish dest st .err else layerLoop dest o es st
       else do
         let l ← sys (.lstat p)
         let needRm : Bool := match l with
